@@ -118,6 +118,10 @@ partial def toVE (sc : Scalar α) : SX → Option (VE α)
       | "drawdown", [] => some .drawdown
       | "lnret", [] => some .lnret
       | "wroll", [] => some .wroll
+      -- the `Default`-constructed rolling views of the crate are the same views over Echo
+      | "drawdown_d", [] => some .drawdown
+      | "lnret_d", [] => some .lnret
+      | "wroll_d", [] => some .wroll
       | "sma", [n] => n.toNat?.map .sma
       | "ema", [n] => n.toNat?.map .ema
       | "emaa", [n, a] => do some (.emaa (← n.toNat?) (← sc.parse a))
@@ -189,13 +193,16 @@ partial def toSpecFn (sc : Scalar α) : SX → Option (List α → Option α)
     | "wroll", [] => some Spec.welfordRolling
     | "drawdown", [] => some fun xs => some (Spec.drawdown xs)
     | "lnret", [] => some Spec.lnReturn
+    | "wroll_d", [] => some Spec.welfordRolling
+    | "drawdown_d", [] => some fun xs => some (Spec.drawdown xs)
+    | "lnret_d", [] => some Spec.lnReturn
     | "ss", [n] => n.toNat?.map fun n => Spec.superSmoother n
     | "roof", [n, m] => do some (Spec.roofing (← n.toNat?) (← m.toNat?))
     | "lagf", [g] => (sc.parse g).map fun g => Spec.laguerreFilter g
     | "lagrsi", [n] => n.toNat?.map fun n => Spec.laguerreRsi n
     | "cc", [n] => n.toNat?.map fun n => Spec.cyberCycle n
-    | "tflex", [n] => n.toNat?.map fun n => Spec.trendFlex n
-    | "rflex", [n] => n.toNat?.map fun n => Spec.reFlex n
+    | "tflex", [n] => n.toNat?.map fun n => Spec.trendFlexW n
+    | "rflex", [n] => n.toNat?.map fun n => Spec.reFlexW n
     | _, _ => none
   | _ => none
 
@@ -209,6 +216,7 @@ def toSpecView (sc : Scalar α) (sx : SX) : Option (View α) :=
       | some n => fun h => [Spec.welfordMean n h, Spec.sampleVar (Spec.lastN n h)]
       | none => fun _ => []
     | .list [.atom "wroll"] => fun h => [Spec.welfordRollingMean h, Spec.popVar h]
+    | .list [.atom "wroll_d"] => fun h => [Spec.welfordRollingMean h, Spec.popVar h]
     | _ => fun _ => []
   some (specView f acc)
 
